@@ -134,6 +134,7 @@ func (w *vC10GateWitness) ServeDNS(ctx context.Context, ch *middleware.Chain) {
 }
 
 type vC10PReq struct {
+
 	r      int
 	kind   string
 	name   string
